@@ -19,6 +19,11 @@ import z3
 from fractions import Fraction
 
 
+import os as _os
+DUMP_SLOW = float(_os.environ.get('VERIF_DUMP_SLOW', '0'))
+QUERY_TIMEOUT_MS = int(_os.environ.get('VERIF_QUERY_TIMEOUT_MS', '60000'))
+
+
 class PathEnd(BaseException):
     """Abort the current path (infeasible assumption or explicit bound).  BaseException so that the
     real code's `except Exception` clauses do not swallow it."""
@@ -82,6 +87,7 @@ class Explorer:
     def _reset_path(self):
         self.pos = 0
         self.solver = z3.Solver()
+        self.solver.set('timeout', QUERY_TIMEOUT_MS)
         self.model = None  # a model of the current path condition (or None = must recompute)
         self.model_valid = False
         self.aborting = False
@@ -105,7 +111,11 @@ class Explorer:
         if extra:
             self.solver.push()
             self.solver.add(*extra)
+        if DUMP_SLOW:
+            smt = self.solver.to_smt2()
         r = self.solver.check()
+        if DUMP_SLOW and time.time() - t > DUMP_SLOW:
+            open('/tmp/slow_%d.smt2' % int(time.time() * 1000), 'w').write(smt)
         m = self.solver.model() if r == z3.sat else None
         if extra:
             self.solver.pop()
@@ -235,6 +245,8 @@ class Explorer:
         return v
 
     def concretize_real(self, expr):
+        if expr.sort().kind() == z3.Z3_INT_SORT:
+            return self.concretize_int(expr)
         while True:
             expr_s = z3.simplify(expr)
             if z3.is_rational_value(expr_s):
@@ -376,8 +388,8 @@ def zb(x):
 TOKENS = []  # per path: placeholder tokens for proxies formatted into strings (reset by World)
 
 
-def make_token(z):
-    TOKENS.append(z)
+def make_token(z, isfloat=False):
+    TOKENS.append((z, isfloat))
     return '⟦%d⟧' % (len(TOKENS) - 1)
 
 
@@ -399,22 +411,22 @@ def zi(x):
 
 
 def zr(x):
-    """lift to a Real-sorted term"""
-    if isinstance(x, R):
-        return x.z
-    if isinstance(x, I):
-        return z3.ToReal(x.z)
-    if isinstance(x, B):
-        return z3.If(x.z, z3.RealVal(1), z3.RealVal(0))
-    if isinstance(x, (bool, int)):
-        return z3.RealVal(int(x))
-    if isinstance(x, Fraction):
-        return z3.RealVal(str(x))
-    if isinstance(x, float):
-        if x != x or x in (float('inf'), float('-inf')):
-            raise Inconclusive('non-finite float in real arithmetic')
-        return z3.RealVal(str(Fraction(x)))
-    raise TypeError('not a number: %r' % (x,))
+    """lift to the sort of "float" quantities (Int in integer-time mode, Real in real mode)"""
+    from . import sx
+    if isinstance(x, (R, I)):
+        x = x.z
+    elif z3.is_expr(x):
+        pass
+    elif isinstance(x, B):
+        x = z3.If(x.z, 1, 0)
+    elif isinstance(x, float) and (x != x or x in (float('inf'), float('-inf'))):
+        raise Inconclusive('non-finite float in symbolic arithmetic')
+    elif not isinstance(x, (bool, int, float, Fraction)):
+        raise TypeError('not a number: %r' % (x,))
+    try:
+        return sx.zR(x)
+    except sx.NonInteger as e:
+        raise Inconclusive(str(e))
 
 
 def is_num(x):
@@ -482,13 +494,19 @@ class _Num:
     __rmul__ = __mul__
 
     def __truediv__(self, o):
+        from . import sx
         if not isinstance(o, (I, R, int, float, Fraction, B)):
             return NotImplemented
+        if not sx.REAL_MODE:
+            raise Inconclusive('true division in integer-time mode')
         return R(zr(self) / zr(o))
 
     def __rtruediv__(self, o):
+        from . import sx
         if not isinstance(o, (I, R, int, float, Fraction, B)):
             return NotImplemented
+        if not sx.REAL_MODE:
+            raise Inconclusive('true division in integer-time mode')
         return R(zr(o) / zr(self))
 
     def __neg__(self):
@@ -507,10 +525,10 @@ class _Num:
         return ex.branch(self.z != 0)
 
     def __str__(self):
-        return make_token(self.z)
+        return make_token(self.z, isinstance(self, R))
 
     def __format__(self, spec):
-        return make_token(self.z)
+        return make_token(self.z, isinstance(self, R))
 
     def __repr__(self):
         return '%s(%s)' % (type(self).__name__, self.z)
@@ -534,6 +552,13 @@ class I(_Num):
     def __float__(self):
         return float(self.__index__())
 
+    def bit_length(self):
+        a = z3.If(self.z >= 0, self.z, -self.z)
+        r = z3.IntVal(0)
+        for n in range(80, 0, -1):
+            r = z3.If(a < 2 ** (n - 1), r, z3.If(a < 2 ** n, n, r)) if n == 80 else z3.If(z3.And(a >= 2 ** (n - 1), a < 2 ** n), n, r)
+        return I(r)
+
     def __floordiv__(self, o):
         if isinstance(o, int) and not isinstance(o, bool) and o > 0:
             return I(self.z / o)  # z3 int division floors for positive divisors, as Python does
@@ -550,16 +575,14 @@ class R(_Num):
     __slots__ = ()
 
     def __init__(self, z):
-        if not z3.is_expr(z):
-            z = zr(z)
-        elif not is_real_sort(z):
-            z = z3.ToReal(z)
-        self.z = z
+        self.z = zr(z)
 
     def __float__(self):
         ex = Ctx.cur
         if ex is None:
             v = z3.simplify(self.z)
+            if z3.is_int_value(v):
+                return float(v.as_long())
             return float(Fraction(v.numerator_as_long(), v.denominator_as_long()))
         return float(ex.concretize_real(self.z))
 
